@@ -335,20 +335,32 @@ class FramePath:
         self.label = None
 
 
+def _flatten_top(fcts, v, out):
+    if isinstance(v, Choice):
+        for d, x in v.alts:
+            _flatten_top(tuple(fcts) + tuple(d), x, out)
+    else:
+        f2, v2 = hoist(v)
+        if isinstance(v2, Choice):
+            _flatten_top(tuple(fcts) + f2, v2, out)
+        else:
+            out.append((tuple(fcts) + f2, v2))
+
+
 def frame_paths(prog, run):
     """(ok_paths, err_alts): accepted grammar paths fully expanded over payload-bearing choices"""
     oks, errs = [], []
+    flat = []
     for fcts, v in run.alts:
+        _flatten_top(fcts, v, flat)
+    for fcts, v in flat:
         if is_ok(v):
             for d, fr in expand_paths(prog, v.fields[0], payload_choice):
                 oks.append(FramePath(prog, tuple(fcts) + tuple(d), fr))
-        elif isinstance(v, Choice):
-            for d, x in v.alts:
-                if is_ok(x):
-                    for d2, fr in expand_paths(prog, x.fields[0], payload_choice):
-                        oks.append(FramePath(prog, tuple(fcts) + tuple(d) + tuple(d2), fr))
-                else:
-                    errs.append((tuple(fcts) + tuple(d), x))
+        elif is_err(v) and v.fields and isinstance(v.fields[0], Choice):
+            for d, x in v.fields[0].alts:
+                f2, x2 = hoist(x)
+                errs.append((tuple(fcts) + tuple(d) + f2, AdtVal(v.path, v.variant, [x2], v.kind, v.vname)))
         else:
             errs.append((fcts, v))
     return oks, errs
